@@ -30,7 +30,7 @@ THEOREMS = [f'Gnpy.Edfa.{t}' for t in (
     'nf_openroadm', 'nf_openroadm_preamp', 'multiCall_none_iff', 'multiCall_per_band', 'coil_pos_of_spread',
     'nf_stage_antitone', 'interp_const', 'dual_stage_limits', 'dual_stage_total_out_le_booster_pmax',
     'dual_stage_rejected_iff', 'flat_branch_total_gain', 'gain_profile_normalised_uniform_flat', 'secantStep_affine',
-    'gain_profile_normalised_const_dgt')]
+    'gain_profile_normalised_const_dgt', 'multiband_total_out_le_pmax_per_band')]
 PARTIAL = ['gain_profile_normalised_partial: proved exact in three cases: flat configuration (gain_profile_flat), uniform '
            'input with gain excursion <= 0.05 dB (gain_profile_normalised_uniform_flat), constant dynamic gain tilt '
            'over the loaded channels with any input, within the code tolerance 1e-11 dB '
@@ -209,14 +209,23 @@ def gen_multi(rng, tier, widen):
     m = rng.choice(mnames)
     opers, chans = [], []
     members = sorted(eq['Edfa'][m].multi_band, key=lambda t: eq['Edfa'][t].f_min)
-    for t in members:
+    # load pattern: random per band, or exactly ONE band driven into saturation while the other stays far below
+    pattern = rng.choice(['random', 'random', 'first_saturates', 'last_saturates'])
+    for k, t in enumerate(members):
         a = eq['Edfa'][t]
         oper = {'gain_target': round(rng.uniform(a.gain_min - 4, a.gain_flatmax + 3), 2),
                 'tilt_target': rng.choice([0, 0, 1, -1, round(rng.uniform(-2, 2), 2)]),
                 'out_voa': rng.choice([0, 1, 2.5])}
         opers.append({'type_variety': t, 'operational': oper})
-        if rng.random() < 0.85:
-            chans += gen_powers(rng, gen_spectrum(rng, int(a.f_min), int(a.f_max), tier), oper, a.p_max, widen)
+        if pattern != 'random' or rng.random() < 0.85:
+            spec = gen_spectrum(rng, int(a.f_min), int(a.f_max), tier)
+            if pattern == 'random':
+                chans += gen_powers(rng, spec, oper, a.p_max, widen)
+            else:
+                sat = (k == 0) == (pattern == 'first_saturates')
+                ptot = a.p_max - oper['gain_target'] + (rng.uniform(0.5, 6) if sat else -rng.uniform(8, 20))
+                ptot = max(-45.0, min(28.0, ptot))
+                chans += [c + [round(ptot - 10 * math.log10(max(1, len(spec))), 3)] for c in spec]
     # drop overlaps between the two combs (a comb may run past its band)
     chans.sort(key=lambda c: c[0])
     clean = []
@@ -224,7 +233,7 @@ def gen_multi(rng, tier, widen):
         if not clean or clean[-1][0] + clean[-1][1] // 2 <= c[0] - c[1] // 2:
             clean.append(c)
     return {'kind': 'multi', 'lib': {'shipped': 'eqpt_config_multiband.json'}, 'amp': m, 'amplifiers': opers,
-            'chans': clean, 'noise': rng.choice([0, 0.05])}
+            'chans': clean, 'noise': rng.choice([0, 0.05]), 'pattern': pattern}
 
 
 def gen_nfshape(rng):
@@ -563,6 +572,7 @@ def run_multi(case, drv):
                 res.cmp_float('Multiband_amplifier.amp.effective_gain', a.effective_gain, b2f(o['eff']), abs_=1e-9)
     # monitor: each band's amplifier clamps on the power of its own band
     sig_out = out._signal_ratio * out.pch
+    band_sat = []
     for a in amps:
         lo, hi = int(a.params.f_min), int(a.params.f_max)
         idx = [i for i in keep if 2 * ch[i][0] - ch[i][1] >= 2 * lo and 2 * ch[i][0] + ch[i][1] <= 2 * hi]
@@ -570,6 +580,7 @@ def run_multi(case, drv):
             continue
         ptot = math.fsum(float(pin_all[i]) for i in idx)
         need = min(float(a.operational.gain_target), a.params.p_max - 10 * math.log10(ptot * 1e3))
+        band_sat.append(float(a.effective_gain) < float(a.operational.gain_target) - 1e-12)
         if abs(float(a.effective_gain) - need) > 1e-9:
             res.fail(f'effective gain: band amplifier {a.params.type_variety} applies {a.effective_gain}, '
                      f'min(set gain, p_max - power of its band) = {need}')
@@ -582,7 +593,8 @@ def run_multi(case, drv):
                          f'whose effective gain is {a.effective_gain}')
                 break
     res.nontrivial = len(keep) >= 2
-    res.stats.update({'multi_cases': 1, 'multi_channels_kept': len(keep), 'multi_channels_dropped': len(ch) - len(keep)})
+    res.stats.update({'multi_cases': 1, 'multi_one_band_saturated_other_not': int(len(band_sat) == 2 and band_sat[0] != band_sat[1]),
+                      'multi_both_bands_saturated': int(len(band_sat) == 2 and all(band_sat)), 'multi_channels_kept': len(keep), 'multi_channels_dropped': len(ch) - len(keep)})
     return res
 
 
